@@ -114,6 +114,8 @@ def build_world(w, fmt, root, times=CLI_TIMES):
             _put(os.path.join(where, n + '.txt'), module_text(n, w) + packed, T0)
         elif st == 'broken':
             _put(os.path.join(where, n + '.txt'), module_text(n, w).replace('END\n', '::= ::= END\n') + packed, T0)
+        elif st == 'cut':       # ends inside a MACRO body: leaves a careless lexer in its "macro" state for the next file
+            _put(os.path.join(where, n + '.txt'), module_text(n, w).replace('END\n', 'OBJECT-TYPE MACRO ::= BEGIN\n  TYPE NOTATION ::= "SYNTAX"\n'), T0)
     if w['alias']:
         _put(os.path.join(src, 'afile.txt'), module_text('AA-MIB', w), T0)
     if w['src2A'] == 'ok':
